@@ -1,0 +1,12 @@
+// SPDX-FileCopyrightText: 2026 The Pion community <https://pion.ly>
+// SPDX-License-Identifier: MIT
+
+//go:build verif && verif_c24 && !js
+
+package webrtc
+
+// VerifFlushCandidates exposes flushCandidates (the candidate-pool flush
+// SetLocalDescription performs) to the verification harness (property C24).
+func (g *ICEGatherer) VerifFlushCandidates() {
+	g.flushCandidates()
+}
